@@ -31,16 +31,16 @@ const (
 
 // Result is what a worker reports for one explored case.
 type Result struct {
-	Case    string         `json:"case"`              // unique id of the case inside the run
-	Class   string         `json:"class,omitempty"`   // class used to count distinct non-trivial cases ("" = trivial)
-	Verdict Verdict        `json:"verdict"`           // held / violated / inconclusive
-	Key     string         `json:"key,omitempty"`     // stable signature of a violation (matched against known_findings.json)
-	Msg     string         `json:"msg,omitempty"`     // what was expected / observed
-	Replay  any            `json:"replay,omitempty"`  // concrete input needed to re-execute the case
-	Obs     map[string]int `json:"obs,omitempty"`     // observation counters (events seen by the monitors)
-	Sample  any            `json:"sample,omitempty"`  // a written-out description of the case (evidence samples)
-	Begin   bool           `json:"begin,omitempty"`   // marker written before the case touches the code under test
-	Note    string         `json:"note,omitempty"`    // free text (e.g. race report summaries)
+	Case    string         `json:"case"`             // unique id of the case inside the run
+	Class   string         `json:"class,omitempty"`  // class used to count distinct non-trivial cases ("" = trivial)
+	Verdict Verdict        `json:"verdict"`          // held / violated / inconclusive
+	Key     string         `json:"key,omitempty"`    // stable signature of a violation (matched against known_findings.json)
+	Msg     string         `json:"msg,omitempty"`    // what was expected / observed
+	Replay  any            `json:"replay,omitempty"` // concrete input needed to re-execute the case
+	Obs     map[string]int `json:"obs,omitempty"`    // observation counters (events seen by the monitors)
+	Sample  any            `json:"sample,omitempty"` // a written-out description of the case (evidence samples)
+	Begin   bool           `json:"begin,omitempty"`  // marker written before the case touches the code under test
+	Note    string         `json:"note,omitempty"`   // free text (e.g. race report summaries)
 }
 
 // Batch is a unit of work executed by one worker process.
@@ -71,7 +71,7 @@ type Prop interface {
 
 var registry = map[string]Prop{}
 
-func Register(p Prop) { registry[p.ID()] = p }
+func Register(p Prop)    { registry[p.ID()] = p }
 func Get(id string) Prop { return registry[id] }
 func IDs() []string {
 	var ids []string
